@@ -116,29 +116,65 @@ def _all_ops():
 OPS = _all_ops()
 
 
+def _p(i, skip=False):
+  return {'op': 'parse', 'text': PARSE_TEXTS[i], 'skip': skip}
+
+
+def _c(fn, scope=''):
+  return {'op': 'call', 'fn': fn, 'scope': scope}
+
+
+def _k(name, value, interactive):
+  return {'op': 'constant', 'name': name, 'value': value, 'interactive': interactive}
+
+
+FIN, OBS = {'op': 'finalize'}, {'op': 'observe'}
+UNLOCK_RAISE = {'op': 'unlock_bind', 'key': 'g.y', 'value': 'u2', 'raises': True}
+# short histories that each fill one of the stores clear_config must empty
+SCENARIOS = {
+    'bindings': [_p(0), _p(1), {'op': 'bind', 'key': 's/t/g.y', 'value': 24}],
+    'operative': [_p(0), _c('f', 's'), _c('g')],
+    'singleton': [_p(5), _c('g'), _c('f')],
+    'singleton_scoped': [_p(6), _c('g', 's')],
+    'imports': [_p(7), _p(8)],
+    'dynamic': [_p(9), _p(10), _c('f')],
+    'shadowing_constants': [_k('mm.X', 1, True), _k('X', 2, True), _k('C20_A', 10, False)],
+    'legal_shadowing': [_k('X', 2, False), _k('mm.X', 1, False), _k('nn.mm.X', 'deep', False)],
+    'macros': [_p(2), _c('f'), _p(11), _c('f')],
+    'failed_ops': [_p(13), _p(14), _p(16), _p(17)],
+    'unknown_refs': [{'op': 'parse', 'text': "f.x = @c20_unknown()\nnope.y = 1", 'skip': True},
+                     _c('f')],
+    'required': [_p(12), _c('req')],
+}
+
+
+def _modified(s):
+  """A scenario alone and followed by the ways of ending a history named in the property."""
+  return [s, s + [FIN], (s + [FIN] + s)[:8], s + [FIN, FIN, UNLOCK_RAISE], s + [FIN, OBS],
+          s[:2] + [{'op': 'clear', 'cc': False}] + s, s[:2] + [{'op': 'clear', 'cc': True}] + s,
+          s + [OBS, _p(13)]]
+
+
 def cases(tier, rng):
-  for op in OPS:   # every single operation, then clear, for the second half with constants cleared
+  for op in OPS:   # every single operation, then the clear
     yield {'history': [op], 'cc': False}
-  fixed = [
-      # constants shadowing one another, defined in interactive mode (the recorded C20 defect)
-      [{'op': 'constant', 'name': 'mm.X', 'value': 1, 'interactive': True},
-       {'op': 'constant', 'name': 'X', 'value': 2, 'interactive': True}],
-      [{'op': 'constant', 'name': 'X', 'value': 2, 'interactive': False},
-       {'op': 'constant', 'name': 'mm.X', 'value': 1, 'interactive': False}],
-      [OPS[0], {'op': 'call', 'fn': 'f', 'scope': 's'}, {'op': 'finalize'}],
-      [OPS[0], {'op': 'finalize'}, {'op': 'finalize'}, {'op': 'bind', 'key': 'f.x', 'value': 1}],
-      [OPS[5], {'op': 'call', 'fn': 'g', 'scope': ''}, {'op': 'call', 'fn': 'f', 'scope': ''}],
-      [OPS[9], OPS[7], {'op': 'call', 'fn': 'f', 'scope': ''}],
-      [OPS[11], {'op': 'call', 'fn': 'f', 'scope': ''}, {'op': 'observe'}],
-      [{'op': 'parse', 'text': "f.x = @c20_unknown()\nnope.y = 1", 'skip': True}, {'op': 'finalize'}],
-  ]
-  for h in fixed:
-    for cc in (False, True):
-      yield {'history': h, 'cc': cc}
-  n = 700 if tier == 'quick' else 14000
-  for _ in range(n):
-    k = rng.randint(1, 8)
-    yield {'history': [rng.choice(OPS) for _ in range(k)], 'cc': rng.random() < 0.4}
+  for name in sorted(SCENARIOS):
+    for h in _modified(SCENARIOS[name]):
+      for cc in (False, True):
+        yield {'history': h, 'cc': cc}
+  names = sorted(SCENARIOS)
+  n = 450 if tier == 'quick' else 14000
+  for i in range(n):
+    if i % 3 == 0:   # uniformly random operations
+      h = [rng.choice(OPS) for _ in range(rng.randint(1, 8))]
+    else:            # random interleaving of two scenarios with a few random operations
+      a, b = list(SCENARIOS[rng.choice(names)]), list(SCENARIOS[rng.choice(names)])
+      extra = [rng.choice([FIN, OBS, UNLOCK_RAISE, rng.choice(OPS)]) for _ in range(rng.randint(0, 3))]
+      h = []
+      while (a or b or extra) and len(h) < 8:
+        src = rng.choice([x for x in (a, b, extra) if x])
+        h.append(src.pop(0))
+    yield {'history': h, 'cc': rng.random() < 0.4}
 
 
 def nontrivial(case):
@@ -330,6 +366,9 @@ def _check(case):
     if got.get(k) == want[k]:
       continue
     clause = CLAUSE_OF.get(k)
+    if k in ('config_str', 'config_str_prov', 'operative_str') and any(
+        l.startswith(('import ', 'from ')) for l in str(got[k][1]).split('\n')):
+      clause = 'no_recorded_imports'
     if clause is None:   # 'constants', 'constant_macros'
       clause = 'only_required_remains' if cc else 'constants_survive'
     sub = k
